@@ -1,12 +1,13 @@
 (** correspondence for the SSO endpoint (C02, C05, C06, C08): the model run on the abstract inputs of a case
     must reproduce the projected observation of the real handler. *)
-From Saml Require Import Base.Bytes Idp.FactTypes Gen.Facts Gen.Pure Idp.Sso Xml.SchemaTypes Xml.Schema Xml.Unmarshal Idp.AuthnOf.
+From Saml Require Import Base.Bytes Idp.FactTypes Gen.Facts Gen.Pure Idp.Sso Xml.SchemaTypes Xml.Schema Xml.Unmarshal Idp.AuthnOf Idp.RequestsOf.
 
 Record sso_obs := { o_kind : Z; o_status : bytes; o_target : bytes; o_relay : bytes; o_irt : bytes; o_sigalg : bytes;
                     o_login : bytes; o_issuer : bytes; o_dest : bytes; o_creates : list create_args }.
 Record sso_case := { k_id : Z; k_form : option form; k_dec : option authn; k_sp : option sp_rec; k_vr : bool; k_vp : bool;
                      k_times : list (bytes * instant); k_now : Z; k_create : option bytes; k_want : bytes; k_locs : list bytes;
                      k_eid : bytes; k_cert_ok : bool; k_obs : sso_obs;
+                     k_spdoc : option rnode  (* the metadata document the service provider was registered with *);
                      k_doc : option (bool * rnode)  (* the inflated payload as Go's decoder resolves it: trailing content?, root element *) }.
 
 Fixpoint assoc_instant (s : bytes) (l : list (bytes * instant)) : instant :=
@@ -50,7 +51,7 @@ Definition doc_ok (k : sso_case) : bool :=
   | Some (trailing, doc) => option_eqb authn_eqb (authn_of_doc trailing doc) (k_dec k)
   | None => true
   end.
-Definition sso_ok (k : sso_case) : bool := obs_eqb (project (model_of k)) (k_obs k) && doc_ok k.
+Definition sso_ok (k : sso_case) : bool := obs_eqb (project (model_of k)) (k_obs k) && doc_ok k && sp_doc_ok (k_sp k) (k_spdoc k).
 Definition sso_bad (ks : list sso_case) : list Z := map k_id (filter (fun k => negb (sso_ok k)) ks).
 (** debugging aid: what the model predicts *)
 Definition sso_predict (k : sso_case) := project (model_of k).
